@@ -427,6 +427,7 @@ pub fn run(args: &[String]) -> i32 {
     let mut total = 0u64;
     let mut per_type: BTreeMap<String, u64> = BTreeMap::new();
     let mut rng = Rng::new(seed);
+    let mut hosts: BTreeMap<String, (String, Vec<(String, String)>, usize)> = BTreeMap::new();
 
     let f = std::io::BufReader::new(std::fs::File::open(cases_path).expect("cases"));
     for (case_id, line) in f.lines().enumerate() {
@@ -456,6 +457,12 @@ pub fn run(args: &[String]) -> i32 {
             let same = out.accepted && same_tokens(&out_tokens, &fields);
             let mk = mut_kind(&c);
             let replay = json!({"case": c.raw, "policy": policy, "text": full});
+            // hosts for the embedding step: the first accepted, exactly reproduced, unmutated message per tag
+            if policy == 0 && c.muts.is_empty() && c.verdict == "accept" && same && out.panic.is_none() {
+                for (i, (tag, _)) in fields.iter().enumerate() {
+                    hosts.entry(tag.clone()).or_insert_with(|| (c.mt.clone(), fields.clone(), i));
+                }
+            }
 
             // ---------------- C07-style observation: panics are data ----------------
             if let Some(p) = &out.panic {
@@ -652,6 +659,58 @@ pub fn run(args: &[String]) -> i32 {
     if let Some(w) = traces_out.as_mut() {
         let _ = w.flush();
     }
+    // ---------------- embedding: every out-of-format content of the FieldFormats shape space inside a message ----
+    // "A message in which exactly one field has content that violates that field's format is rejected, and the
+    // error names that field's tag and carries its content" (C09); if it is accepted all the same, whether the
+    // content survives is C01's matter. The text block gives a field its value with surrounding white space
+    // removed, so contents that start or end with white space are a different content there and are left out.
+    let mut embedded = 0u64;
+    let mut embed_no_host: BTreeSet<String> = BTreeSet::new();
+    if let Some(path) = arg(args, "--embed") {
+        if let Ok(fh) = std::fs::File::open(path) {
+            for line in std::io::BufReader::new(fh).lines().map_while(|l| l.ok()) {
+                let fc: Value = match serde_json::from_str(&line) { Ok(v) => v, Err(_) => continue };
+                if fc["accept"] != false { continue; }
+                let tag = fc["tag"].as_str().unwrap_or("").to_string();
+                let label = fc["l"].as_str().unwrap_or("").to_string();
+                let content: String = fc["s"].as_array().map(|a| a.iter().filter_map(|x| x.as_str()).collect::<Vec<_>>().concat()).unwrap_or_default()
+                    .replace("<MB>", "\u{e9}").replace("<AD>", "\u{661}");
+                if content.is_empty() || content != content.trim() || content.contains("\n-\n") || content.ends_with("\n-") { continue; }
+                // a line that opens with a field marker starts a new field in a text block
+                if content.split('\n').skip(1).any(|l| l.starts_with(':')) { continue; }
+                let (mt, base, pos) = match hosts.get(&tag) { Some(h) => h.clone(), None => { embed_no_host.insert(tag); continue; } };
+                let mut fields = base.clone();
+                fields[pos].1 = content.clone();
+                let full = full_message(&mt, &block4_text(&fields));
+                let out = match run_typed(&mt, &full, false) { Some(o) => o, None => continue };
+                embedded += 1;
+                let lab = label.replace("=\u{661}", "=non-ascii-digit").replace("=<AD>", "=non-ascii-digit").replace("=<MB>", "=multibyte").replace("= ", "=space");
+                let replay = json!({"kind": "embed", "mt": mt, "tag": tag, "label": label, "content": content, "text": full});
+                let t9 = props.get_mut("C09").unwrap();
+                t9.evaluated += 1;
+                if let Some(pn) = &out.panic {
+                    *t9.notes.entry(format!("panic:{}", pn)).or_insert(0) += 1;
+                } else if out.accepted {
+                    t9.violations.push(json!({"sig": format!("C09|Field{}|out-of-format-accepted-in-MT{}|{}", tag, mt, lab), "replay": replay}));
+                    let out_tokens = tok::tokenize(&out.body_ser).tokens;
+                    let t1 = props.get_mut("C01").unwrap();
+                    t1.evaluated += 1;
+                    if !same_tokens(&out_tokens, &fields) {
+                        t1.violations.push(json!({"sig": format!("C01|Field{}|out-of-format-accepted-and-changed-in-MT{}|{}", tag, mt, lab), "replay": replay,
+                            "detail": {"ser": out.body_ser}}));
+                    }
+                } else {
+                    let (var, pay) = out.err.as_ref().map(err_variant).unwrap_or(("?".into(), Value::Null));
+                    let etag = pay.get("field_tag").and_then(|x| x.as_str()).unwrap_or("");
+                    let val = pay.get("value").and_then(|x| x.as_str()).unwrap_or("");
+                    if !(var == "InvalidFieldFormat" && etag == tag && lf(val) == lf(&content)) {
+                        t9.violations.push(json!({"sig": format!("C09|Field{}|embedded-error-does-not-name:{}:{}", tag, var, etag), "replay": replay,
+                            "detail": {"err": out.err, "text": out.err_text}}));
+                    }
+                }
+            }
+        }
+    }
     let mut pj = serde_json::Map::new();
     for (p, t) in props {
         pj.insert(p.to_string(), json!({
@@ -662,7 +721,8 @@ pub fn run(args: &[String]) -> i32 {
         "total_executions": total, "distinct_cases": distinct.len(), "distinct_nontrivial": nontrivial,
         "skipped_unconcretisable": skipped_unconcretisable, "per_type": per_type,
         "traces": n_traces, "trace_events": n_trace_events,
-        "content_notes": content_notes, "pool_contents": pool_size, "props": pj, "seed": seed,
+        "content_notes": content_notes, "pool_contents": pool_size, "embedded_contents": embedded,
+        "embed_without_host": embed_no_host.into_iter().collect::<Vec<_>>(), "props": pj, "seed": seed,
     });
     std::fs::write(out_path, serde_json::to_string(&summary).unwrap()).expect("write out");
     0
